@@ -306,3 +306,24 @@ pub fn show_result(r: &Result<QueryResult, DbError>, sort_by_id: bool) -> String
 }
 
 pub fn ihex_pub(z: i64) -> String { ihex(z) }
+
+// ---------------------------------------------------------------- immutable execution (C23)
+// the select / search queries through a read transaction (`&DbImpl`); None for a mutating query
+pub fn run_select_txn<S: StorageData>(t: &Transaction<S>, q: &Q) -> Option<Result<QueryResult, DbError>> {
+    Some(match q {
+        Q::SelectValues(k, i) => t.exec(SelectValuesQuery { keys: k.clone(), ids: to_qids(i) }),
+        Q::SelectKeys(i) => t.exec(SelectKeysQuery(to_qids(i))),
+        Q::SelectKeyCount(i) => t.exec(SelectKeyCountQuery(to_qids(i))),
+        Q::SelectAliases(i) => t.exec(SelectAliasesQuery(to_qids(i))),
+        Q::SelectAllAliases => t.exec(SelectAllAliasesQuery {}),
+        Q::SelectEdgeCount(i, f, to) => t.exec(SelectEdgeCountQuery { ids: to_qids(i), from: *f, to: *to }),
+        Q::SelectIndexes => t.exec(SelectIndexesQuery {}),
+        Q::SelectNodeCount => t.exec(SelectNodeCountQuery {}),
+        Q::SearchQ(s) => t.exec(to_search(s)),
+        _ => return None,
+    })
+}
+
+pub fn run_select<S: StorageData>(db: &DbImpl<S>, q: &Q) -> Option<Result<QueryResult, DbError>> {
+    db.transaction(|t| -> Result<Option<Result<QueryResult, DbError>>, DbError> { Ok(run_select_txn(t, q)) }).unwrap()
+}
